@@ -53,10 +53,27 @@ pub struct TypedReply {
     pub s: Option<String>,
 }
 
+/// the request parameters of a call object: a JSON value, or a value whose `Serialize` fails
+/// (what e.g. a map with non-string keys does in `serde_json::to_value`)
+#[derive(Clone)]
+pub enum ReqArg {
+    V(Value),
+    Unser,
+}
+
+impl serde::Serialize for ReqArg {
+    fn serialize<S: serde::Serializer>(&self, ser: S) -> Result<S::Ok, S::Error> {
+        match self {
+            ReqArg::V(v) => v.serialize(ser),
+            ReqArg::Unser => Err(serde::ser::Error::custom("request does not serialize")),
+        }
+    }
+}
+
 /// a call object with `MReply = Value` or `MReply = TypedReply`
 pub enum Call {
-    V(MethodCall<Value, Value, varlink::Error>),
-    T(MethodCall<Value, TypedReply, varlink::Error>),
+    V(MethodCall<ReqArg, Value, varlink::Error>),
+    T(MethodCall<ReqArg, TypedReply, varlink::Error>),
 }
 
 fn typed_value(r: Result<TypedReply, varlink::Error>) -> Result<Value, varlink::Error> {
@@ -64,7 +81,7 @@ fn typed_value(r: Result<TypedReply, varlink::Error>) -> Result<Value, varlink::
 }
 
 impl Call {
-    fn new(conn: Arc<RwLock<Connection>>, method: String, params: Value, typed: bool) -> Call {
+    fn new(conn: Arc<RwLock<Connection>>, method: String, params: ReqArg, typed: bool) -> Call {
         if typed {
             Call::T(MethodCall::new(conn, method, params))
         } else {
@@ -545,12 +562,13 @@ fn parse_op(s: &Sx) -> Op {
     }
 }
 
-fn parse_objs(s: &Sx) -> Vec<(String, Value)> {
+fn parse_objs(s: &Sx) -> Vec<(String, ReqArg)> {
     s.as_list().unwrap()[1..]
         .iter()
         .map(|o| {
             let l = o.as_list().unwrap();
-            (l[0].as_str().unwrap(), l[1].to_json().unwrap())
+            let arg = if l[1].as_atom() == Some("unser") { ReqArg::Unser } else { ReqArg::V(l[1].to_json().unwrap()) };
+            (l[0].as_str().unwrap(), arg)
         })
         .collect()
 }
@@ -860,7 +878,7 @@ fn run_free(input: &Sx) -> Sx {
 
 /// the threads' operations executed one after the other in the order in which their requests reached the
 /// server (operations that send nothing run right after the preceding operation of their thread)
-fn replay_linearisation(objs_spec: &[(String, Value)], progs: &[Vec<Op>], lin: &[Sx]) -> Vec<Sx> {
+fn replay_linearisation(objs_spec: &[(String, ReqArg)], progs: &[Vec<Op>], lin: &[Sx]) -> Vec<Sx> {
     let rig = rig(None, None);
     let server = echo_server(rig.server_end.try_clone().unwrap());
     let mut pcs = vec![0usize; progs.len()];
@@ -1117,6 +1135,7 @@ struct SeqGen {
     outstanding: Option<usize>,
     iter_left: usize,
     typed: bool,
+    unser: Vec<usize>,
 }
 
 impl SeqGen {
@@ -1128,7 +1147,14 @@ impl SeqGen {
             2 => json!([i]),
             _ => json!({"token": format!("t{}", i), "n": rng.below(5)}),
         };
-        self.objs.push(sx::list(vec![sx::xs(&format!("org.example.client.M{}", i)), sx::json(&params)]));
+        if rng.chance(1, 12) {
+            // a request whose Serialize impl fails
+            self.objs.push(sx::list(vec![sx::xs(&format!("org.example.client.M{}", i)), sx::atom("unser")]));
+            self.tags.push("obj:unserializable-request".into());
+            self.unser.push(i);
+        } else {
+            self.objs.push(sx::list(vec![sx::xs(&format!("org.example.client.M{}", i)), sx::json(&params)]));
+        }
         i
     }
 
@@ -1227,7 +1253,7 @@ impl SeqGen {
 
 fn gen_seq(rng: &mut Rng, maxlen: usize) -> (Sx, Vec<String>) {
     let typed = rng.chance(1, 3);
-    let mut g = SeqGen { objs: Vec::new(), ops: Vec::new(), groups: Vec::new(), tags: Vec::new(), outstanding: None, iter_left: 0, typed };
+    let mut g = SeqGen { objs: Vec::new(), ops: Vec::new(), groups: Vec::new(), tags: Vec::new(), outstanding: None, iter_left: 0, typed, unser: Vec::new() };
     // initial group: almost always empty
     let init = match rng.below(40) {
         0 => {
@@ -1263,7 +1289,9 @@ fn gen_seq(rng: &mut Rng, maxlen: usize) -> (Sx, Vec<String>) {
         if choice < 30 {
             let i = g.new_obj(rng);
             g.ops.push(if rng.chance(1, 8) { Op::Upgrade(i) } else { Op::Call(i) });
-            if busy {
+            if g.unser.contains(&i) {
+                g.tags.push(if busy { "op:unserializable-while-busy".to_string() } else { "op:unserializable-while-idle".to_string() });
+            } else if busy {
                 g.tags.push("op:new-call-while-busy".into());
             } else {
                 let k = g.push_group(rng, "call", &format!("t{}", i));
@@ -1275,7 +1303,9 @@ fn gen_seq(rng: &mut Rng, maxlen: usize) -> (Sx, Vec<String>) {
         } else if choice < 50 {
             let i = g.new_obj(rng);
             g.ops.push(Op::More(i));
-            if busy {
+            if g.unser.contains(&i) {
+                g.tags.push(if busy { "op:unserializable-while-busy".to_string() } else { "op:unserializable-while-idle".to_string() });
+            } else if busy {
                 g.tags.push("op:more-while-busy".into());
             } else {
                 let k = g.push_group(rng, "more", &format!("t{}", i));
@@ -1286,7 +1316,9 @@ fn gen_seq(rng: &mut Rng, maxlen: usize) -> (Sx, Vec<String>) {
         } else if choice < 62 {
             let i = g.new_obj(rng);
             g.ops.push(Op::Oneway(i));
-            if busy {
+            if g.unser.contains(&i) {
+                g.tags.push(if busy { "op:unserializable-while-busy".to_string() } else { "op:unserializable-while-idle".to_string() });
+            } else if busy {
                 g.tags.push("op:oneway-while-busy".into());
             } else {
                 g.push_group(rng, "oneway", &format!("t{}", i));
@@ -1318,7 +1350,7 @@ fn gen_seq(rng: &mut Rng, maxlen: usize) -> (Sx, Vec<String>) {
             }
             let i = g.new_obj(rng);
             g.ops.push(Op::Call(i));
-            if !busy {
+            if !busy && !g.unser.contains(&i) {
                 let k = g.push_group(rng, "call", &format!("t{}", i));
                 if k > 0 {
                     g.outstanding = Some(i);
